@@ -7,56 +7,9 @@ returned file holds with the same coordinates.  The property is `readOk → cens
 The model reader is tied to reader.go by the single-fault correspondence stream (every delete,
 duplicate, move, insert, cut of generated valid files).
 -/
-import IclModel.Tree
+import IclModel.Lemmas.CensusStep
 namespace Icl.C04
 open Icl
-
-/-- coordinates of a record: kind, cash letter, bundle, item (1-based; 0 = none) -/
-structure Place where
-  kind : Kind
-  cl : Nat
-  b : Nat
-  it : Nat
-deriving DecidableEq, Repr
-
-structure AState where
-  cl : Nat := 0
-  b : Nat := 0
-  it : Nat := 0
-  inCL : Bool := false
-  inB : Bool := false
-  ok : Bool := true
-  seenFH : Nat := 0
-  seenFC : Nat := 0
-deriving DecidableEq, Repr
-
-/-- one step of the nesting automaton -/
-def astep (a : AState) (k : Kind) : AState × Place :=
-  match k with
-  | .fileHeader => ({ a with seenFH := a.seenFH + 1 }, ⟨k, 0, 0, 0⟩)
-  | .fileControl => ({ a with seenFC := a.seenFC + 1, ok := a.ok && !a.inCL }, ⟨k, 0, 0, 0⟩)
-  | .cashLetterHeader =>
-    ({ a with cl := a.cl + 1, b := 0, it := 0, inCL := true, inB := false, ok := a.ok && !a.inCL }, ⟨k, a.cl + 1, 0, 0⟩)
-  | .cashLetterControl =>
-    ({ a with inCL := false, inB := false, ok := a.ok && a.inCL && !a.inB }, ⟨k, a.cl, 0, 0⟩)
-  | .credit | .creditItem | .rns => ({ a with ok := a.ok && a.inCL }, ⟨k, a.cl, 0, 0⟩)
-  | .bundleHeader =>
-    ({ a with b := a.b + 1, it := 0, inB := true, ok := a.ok && a.inCL && !a.inB }, ⟨k, a.cl, a.b + 1, 0⟩)
-  | .bundleControl => ({ a with inB := false, ok := a.ok && a.inB }, ⟨k, a.cl, a.b, 0⟩)
-  | .checkDetail | .returnDetail => ({ a with it := a.it + 1, ok := a.ok && a.inB }, ⟨k, a.cl, a.b, a.it + 1⟩)
-  | _ => ({ a with ok := a.ok && a.inB && a.it != 0 }, ⟨k, a.cl, a.b, a.it⟩)
-
-def attributeAux : AState → List Kind → List Place × AState
-  | a, [] => ([], a)
-  | a, k :: r =>
-    let (a', p) := astep a k
-    let (ps, af) := attributeAux a' r
-    (p :: ps, af)
-
-/-- places of all input records, and whether the sequence is well nested -/
-def attributeAll (ks : List Kind) : List Place × Bool :=
-  let (ps, a) := attributeAux {} ks
-  (ps, a.ok && a.seenFH == 1 && a.seenFC == 1 && !a.inCL && !a.inB)
 
 /-- the automaton never loses a record: one place per input record, of the record's own kind -/
 theorem attribute_kinds (a : AState) (ks : List Kind) : (attributeAux a ks).1.map (·.kind) = ks := by
@@ -74,6 +27,450 @@ def censusItem (isCheck : Bool) (cl b it : Nat) (i : Item α) : List Place :=
 theorem census_item_kinds (isCheck : Bool) (cl b it : Nat) (i : Item α) :
     (censusItem isCheck cl b it i).map (·.kind) = (Item.flatten isCheck i).map (·.1) := by
   simp [censusItem, Function.comp_def]
+
+/-! ### the reader model never drops, overwrites or re-parents a record -/
+
+/-- appending one record to a list member of an item adds exactly that record's place -/
+macro "item_hf" k:term : tactic =>
+  `(tactic| (intro cl b it x p
+             simp only [itemPlaces, List.count_append, List.count_replicate, List.count_cons, List.count_nil, List.length_append,
+               List.length_singleton, beq_iff_eq, Bool.false_eq_true, if_false, if_true]
+             by_cases hq : (⟨$k, cl, b, it⟩ : Place) = p
+             · subst hq; simp <;> omega
+             · simp [hq] <;> omega))
+
+theorem openB_none (s : RState) (h : s.curBundle = none) : openB s.core = false := by
+  simp [openB, RState.core, h]
+
+theorem openB_some (s : RState) (b : Bundle Vals) (h : s.curBundle = some b) : openB s.core = b.header.isSome := by
+  simp [openB, RState.core, h]
+
+theorem isSome_of_ne_none {β : Type} (o : Option β) (h : ¬ o = none) : o.isSome = true := by
+  cases o <;> simp_all
+
+theorem hasChecks_some (s : RState) (h : hasChecks s = true) : ∃ bd, s.curBundle = some bd ∧ bd.checks ≠ [] := by
+  unfold hasChecks at h
+  cases hcb : s.curBundle with
+  | none => simp [hcb] at h
+  | some bd => exact ⟨bd, rfl, by simpa [hcb] using h⟩
+
+theorem hasReturns_some (s : RState) (h : hasReturns s = true) : ∃ bd, s.curBundle = some bd ∧ bd.returns ≠ [] := by
+  unfold hasReturns at h
+  cases hcb : s.curBundle with
+  | none => simp [hcb] at h
+  | some bd => exact ⟨bd, rfl, by simpa [hcb] using h⟩
+
+/-- a record attached to the last check item -/
+theorem rel_updCheck (s : RState) (a : AState) (ps : List Place) (r : Rel s.core a ps) (k : Kind) (hk : itemKind k = true)
+    (hc : hasChecks s = true) (f : Item Vals → Item Vals)
+    (hf : ∀ cl b it x p, (itemPlaces true cl b it (f x)).count p =
+      (itemPlaces true cl b it x).count p + (if (⟨k, cl, b, it⟩ : Place) = p then 1 else 0)) (n : String) :
+    Rel ({ s with recordName := n }.updLastCheck f).core (astep a k).1 (ps ++ [(astep a k).2]) := by
+  obtain ⟨bd, hcb, hne⟩ := hasChecks_some s hc
+  have := rel_lastItem s.core a ps r k hk true bd hcb (by simpa using hne) f hf
+  simpa [RState.core, RState.updLastCheck, hcb] using this
+
+theorem rel_updReturn (s : RState) (a : AState) (ps : List Place) (r : Rel s.core a ps) (k : Kind) (hk : itemKind k = true)
+    (hc : hasReturns s = true) (f : Item Vals → Item Vals)
+    (hf : ∀ cl b it x p, (itemPlaces false cl b it (f x)).count p =
+      (itemPlaces false cl b it x).count p + (if (⟨k, cl, b, it⟩ : Place) = p then 1 else 0)) (n : String) :
+    Rel ({ s with recordName := n }.updLastReturn f).core (astep a k).1 (ps ++ [(astep a k).2]) := by
+  obtain ⟨bd, hcb, hne⟩ := hasReturns_some s hc
+  have := rel_lastItem s.core a ps r k hk false bd hcb (by simpa using hne) f hf
+  simpa [RState.core, RState.updLastReturn, hcb] using this
+
+/-- one accepted record: the reader's holdings and the automaton's attribution move together -/
+theorem rel_step (m : Model) (e : Enc) (s s' : RState) (line : Bytes) (a : AState) (ps : List Place) (k : Kind)
+    (hk : kindOfLine line = some k) (h : rstep m e s line = .ok s') (r : Rel s.core a ps) :
+    Rel s'.core (astep a k).1 (ps ++ [(astep a k).2]) := by
+  cases k with
+  | fileHeader =>
+    simp only [rstep, hk] at h
+    split at h
+    · simp at h
+    · split at h
+      · simp only [Except.ok.injEq] at h; subst h
+        exact rel_fileLevel s.core a ps r .fileHeader (.inl rfl)
+      · simp at h
+  | fileControl =>
+    simp only [rstep, hk] at h
+    split at h
+    · simp at h
+    · split at h
+      · simp at h
+      · rename_i hcl
+        split at h
+        · simp at h
+        · split at h
+          · simp only [Except.ok.injEq] at h; subst h
+            exact rel_fileLevel s.core a ps r .fileControl (.inr ⟨rfl, by simpa [RState.core] using hcl⟩)
+          · simp at h
+  | cashLetterHeader =>
+    simp only [rstep, hk] at h
+    split at h
+    · simp at h
+    · rename_i hcl
+      obtain ⟨v, _, hp⟩ := bind_ok _ _ _ h
+      simp only [pure, Except.pure, Except.ok.injEq] at hp; subst hp
+      exact rel_cashLetterHeader s.core a ps r (by cases hx : s.cur.header <;> simp_all [RState.core]) v _
+  | bundleHeader =>
+    have key : openB s.core = false → rstep m e s line = .ok s' →
+        Rel s'.core (astep a .bundleHeader).1 (ps ++ [(astep a .bundleHeader).2]) := by
+      intro hclosed h
+      cases hcb : s.curBundle with
+      | none =>
+        simp only [rstep, hk, hcb, Bool.false_eq_true, if_false] at h
+        obtain ⟨v, _, hp⟩ := bind_ok _ _ _ h
+        split at hp
+        · simp at hp
+        · rename_i hcl
+          simp only [pure, Except.pure, Except.ok.injEq] at hp; subst hp
+          have := rel_bundleHeader s.core a ps r (by cases hx : s.cur.header <;> simp_all [RState.core]) hclosed v
+            ((m.layout .bundleControl).new m.now)
+          simpa [RState.core] using this
+      | some b =>
+        have hb : b.header.isSome = false := by rw [← openB_some s b hcb]; exact hclosed
+        simp only [rstep, hk, hcb, hb, Bool.false_eq_true, if_false] at h
+        obtain ⟨v, _, hp⟩ := bind_ok _ _ _ h
+        split at hp
+        · simp at hp
+        · rename_i hcl
+          simp only [pure, Except.pure, Except.ok.injEq] at hp; subst hp
+          have := rel_bundleHeader s.core a ps r (by cases hx : s.cur.header <;> simp_all [RState.core]) hclosed v
+            ((m.layout .bundleControl).new m.now)
+          simpa [RState.core] using this
+    cases ho : openB s.core with
+    | false => exact key ho h
+    | true =>
+      cases hcb : s.curBundle with
+      | none => rw [openB_none s hcb] at ho; cases ho
+      | some b =>
+        have hb : b.header.isSome = true := by rw [← openB_some s b hcb]; exact ho
+        simp [rstep, hk, hcb, hb] at h
+  | checkDetail =>
+    simp only [rstep, hk] at h
+    split at h
+    · simp at h
+    · rename_i bd hcb
+      obtain ⟨v, _, hp⟩ := bind_ok _ _ _ h
+      split at hp
+      · simp at hp
+      · rename_i hh
+        split at hp
+        · simp at hp
+        · rename_i hr
+          simp only [pure, Except.pure, Except.ok.injEq] at hp; subst hp
+          have := rel_newItem s.core a ps r true bd hcb (isSome_of_ne_none _ (by simpa using hh)) (by simpa using hr) v
+          simpa [RState.core] using this
+  | returnDetail =>
+    simp only [rstep, hk] at h
+    split at h
+    · simp at h
+    · rename_i bd hcb
+      obtain ⟨v, _, hp⟩ := bind_ok _ _ _ h
+      split at hp
+      · simp at hp
+      · rename_i hh
+        split at hp
+        · simp at hp
+        · rename_i hr
+          simp only [pure, Except.pure, Except.ok.injEq] at hp; subst hp
+          have := rel_newItem s.core a ps r false bd hcb (isSome_of_ne_none _ (by simpa using hh)) (by simpa using hr) v
+          simpa [RState.core] using this
+  | cdAddA =>
+    simp only [rstep, hk] at h
+    split at h
+    · simp at h
+    · rename_i hc
+      obtain ⟨v, _, hp⟩ := bind_ok _ _ _ h
+      simp only [pure, Except.pure, Except.ok.injEq] at hp; subst hp
+      exact rel_updCheck s a ps r .cdAddA rfl (by simpa [hasChecks] using hc) _ (by item_hf .cdAddA) _
+  | cdAddB =>
+    simp only [rstep, hk] at h
+    split at h
+    · simp at h
+    · rename_i hc
+      obtain ⟨v, _, hp⟩ := bind_ok _ _ _ h
+      simp only [pure, Except.pure, Except.ok.injEq] at hp; subst hp
+      exact rel_updCheck s a ps r .cdAddB rfl (by simpa [hasChecks] using hc) _ (by item_hf .cdAddB) _
+  | cdAddC =>
+    simp only [rstep, hk] at h
+    split at h
+    · simp at h
+    · rename_i hc
+      obtain ⟨v, _, hp⟩ := bind_ok _ _ _ h
+      simp only [pure, Except.pure, Except.ok.injEq] at hp; subst hp
+      exact rel_updCheck s a ps r .cdAddC rfl (by simpa [hasChecks] using hc) _ (by item_hf .cdAddC) _
+  | rdAddA =>
+    simp only [rstep, hk] at h
+    split at h
+    · simp at h
+    · rename_i hc
+      obtain ⟨v, _, hp⟩ := bind_ok _ _ _ h
+      simp only [pure, Except.pure, Except.ok.injEq] at hp; subst hp
+      exact rel_updReturn s a ps r .rdAddA rfl (by simpa [hasReturns] using hc) _ (by item_hf .rdAddA) _
+  | rdAddB =>
+    simp only [rstep, hk] at h
+    split at h
+    · simp at h
+    · rename_i hc
+      obtain ⟨v, _, hp⟩ := bind_ok _ _ _ h
+      simp only [pure, Except.pure, Except.ok.injEq] at hp; subst hp
+      exact rel_updReturn s a ps r .rdAddB rfl (by simpa [hasReturns] using hc) _ (by item_hf .rdAddB) _
+  | rdAddC =>
+    simp only [rstep, hk] at h
+    split at h
+    · simp at h
+    · rename_i hc
+      obtain ⟨v, _, hp⟩ := bind_ok _ _ _ h
+      simp only [pure, Except.pure, Except.ok.injEq] at hp; subst hp
+      exact rel_updReturn s a ps r .rdAddC rfl (by simpa [hasReturns] using hc) _ (by item_hf .rdAddC) _
+  | rdAddD =>
+    simp only [rstep, hk] at h
+    split at h
+    · simp at h
+    · rename_i hc
+      obtain ⟨v, _, hp⟩ := bind_ok _ _ _ h
+      simp only [pure, Except.pure, Except.ok.injEq] at hp; subst hp
+      exact rel_updReturn s a ps r .rdAddD rfl (by simpa [hasReturns] using hc) _ (by item_hf .rdAddD) _
+  | ivDetail =>
+    simp only [rstep, hk] at h
+    split at h
+    · rename_i hc
+      obtain ⟨v, _, hp⟩ := bind_ok _ _ _ h
+      simp only [pure, Except.pure, Except.ok.injEq] at hp; subst hp
+      exact rel_updCheck s a ps r .ivDetail rfl (by simpa [hasChecks] using hc) _ (by item_hf .ivDetail) _
+    · split at h
+      · rename_i hc
+        obtain ⟨v, _, hp⟩ := bind_ok _ _ _ h
+        simp only [pure, Except.pure, Except.ok.injEq] at hp; subst hp
+        exact rel_updReturn s a ps r .ivDetail rfl (by simpa [hasReturns] using hc) _ (by item_hf .ivDetail) _
+      · simp at h
+  | ivData =>
+    simp only [rstep, hk] at h
+    split at h
+    · rename_i hc
+      obtain ⟨v, _, hp⟩ := bind_ok _ _ _ h
+      simp only [pure, Except.pure, Except.ok.injEq] at hp; subst hp
+      exact rel_updCheck s a ps r .ivData rfl (by simpa [hasChecks] using hc) _ (by item_hf .ivData) _
+    · split at h
+      · rename_i hc
+        obtain ⟨v, _, hp⟩ := bind_ok _ _ _ h
+        simp only [pure, Except.pure, Except.ok.injEq] at hp; subst hp
+        exact rel_updReturn s a ps r .ivData rfl (by simpa [hasReturns] using hc) _ (by item_hf .ivData) _
+      · simp at h
+  | ivAnalysis =>
+    simp only [rstep, hk] at h
+    split at h
+    · rename_i hc
+      obtain ⟨v, _, hp⟩ := bind_ok _ _ _ h
+      simp only [pure, Except.pure, Except.ok.injEq] at hp; subst hp
+      exact rel_updCheck s a ps r .ivAnalysis rfl (by simpa [hasChecks] using hc) _ (by item_hf .ivAnalysis) _
+    · split at h
+      · rename_i hc
+        obtain ⟨v, _, hp⟩ := bind_ok _ _ _ h
+        simp only [pure, Except.pure, Except.ok.injEq] at hp; subst hp
+        exact rel_updReturn s a ps r .ivAnalysis rfl (by simpa [hasReturns] using hc) _ (by item_hf .ivAnalysis) _
+      · simp at h
+  | credit =>
+    simp only [rstep, hk] at h
+    split at h
+    · simp at h
+    · rename_i hcl
+      obtain ⟨v, _, hp⟩ := bind_ok _ _ _ h
+      simp only [pure, Except.pure, Except.ok.injEq] at hp; subst hp
+      have hcl' : s.core.cur.header.isSome = true := by
+        simp only [RState.core]; cases hx : s.cur.header <;> simp_all
+      exact rel_clAppend s.core a ps r .credit hcl' _ (.inl rfl) rfl rfl (by simp [RState.core]) (by simp [RState.core]) (by simp [RState.core])
+  | creditItem =>
+    simp only [rstep, hk] at h
+    split at h
+    · simp at h
+    · rename_i hcl
+      obtain ⟨v, _, hp⟩ := bind_ok _ _ _ h
+      simp only [pure, Except.pure, Except.ok.injEq] at hp; subst hp
+      have hcl' : s.core.cur.header.isSome = true := by
+        simp only [RState.core]; cases hx : s.cur.header <;> simp_all
+      exact rel_clAppend s.core a ps r .creditItem hcl' _ (.inr (.inl rfl)) rfl rfl (by simp [RState.core]) (by simp [RState.core]) (by simp [RState.core])
+  | rns =>
+    simp only [rstep, hk] at h
+    split at h
+    · simp at h
+    · rename_i hcl
+      obtain ⟨v, _, hp⟩ := bind_ok _ _ _ h
+      simp only [pure, Except.pure, Except.ok.injEq] at hp; subst hp
+      have hcl' : s.core.cur.header.isSome = true := by
+        simp only [RState.core]; cases hx : s.cur.header <;> simp_all
+      exact rel_clAppend s.core a ps r .rns hcl' _ (.inr (.inr rfl)) rfl rfl (by simp [RState.core]) (by simp [RState.core]) (by simp [RState.core])
+  | bundleControl =>
+    simp only [rstep, hk] at h
+    split at h
+    · simp at h
+    · rename_i bd hcb
+      split at h
+      · simp at h
+      · rename_i c0 hc0
+        obtain ⟨v, _, hp⟩ := bind_ok _ _ _ h
+        split at hp
+        · simp at hp
+        · simp only [pure, Except.pure, Except.ok.injEq] at hp; subst hp
+          have := rel_bundleControl s.core a ps r bd hcb (by simp [hc0]) v
+          simpa [RState.core] using this
+  | cashLetterControl =>
+    cases hcl : s.cur.header with
+    | none => simp [rstep, hk, hcl] at h
+    | some hd =>
+      cases hcb : s.curBundle with
+      | none =>
+        have hclosed := openB_none s hcb
+        simp only [rstep, hk, hcl, hcb, Bool.false_eq_true, if_false] at h
+        split at h
+        · simp at h
+        · obtain ⟨v, _, hp⟩ := bind_ok _ _ _ h
+          split at hp
+          · simp at hp
+          · simp only [pure, Except.pure, Except.ok.injEq] at hp; subst hp
+            have := rel_cashLetterControl s.core a ps r (by simp [RState.core, hcl]) hclosed v
+            simpa [RState.core, hcl] using this
+      | some b =>
+        cases hb : b.header.isSome with
+        | true => simp [rstep, hk, hcl, hcb, hb] at h
+        | false =>
+          have hclosed : openB s.core = false := by rw [openB_some s b hcb]; exact hb
+          simp only [rstep, hk, hcl, hcb, hb, Bool.false_eq_true, if_false] at h
+          split at h
+          · simp at h
+          · obtain ⟨v, _, hp⟩ := bind_ok _ _ _ h
+            split at hp
+            · simp at hp
+            · simp only [pure, Except.pure, Except.ok.injEq] at hp; subst hp
+              have := rel_cashLetterControl s.core a ps r (by simp [RState.core, hcl]) hclosed v
+              simpa [RState.core, hcl] using this
+
+
+
+
+/-- the record kinds of the input lines -/
+def kindsOf (lines : List Bytes) : List Kind := lines.filterMap kindOfLine
+
+theorem rstep_ok_kind (m : Model) (e : Enc) (s s' : RState) (line : Bytes) (h : rstep m e s line = .ok s') :
+    ∃ k, kindOfLine line = some k := by
+  cases hk : kindOfLine line with
+  | some k => exact ⟨k, rfl⟩
+  | none => simp [rstep, hk] at h
+
+/-- the whole record loop: if it ends without error, every line had a known kind and the reader's
+holdings are what the automaton attributes to those kinds -/
+theorem readLines_rel (m : Model) (e : Enc) : ∀ (lines : List Bytes) (s s' : RState) (a : AState) (ps : List Place),
+    Rel s.core a ps → readLines m e lines s = (s', none) →
+    Rel s'.core (attributeAux a (kindsOf lines)).2 (ps ++ (attributeAux a (kindsOf lines)).1) ∧
+      (kindsOf lines).length = lines.length
+  | [], s, s', a, ps, r, h => by
+    simp only [readLines, Prod.mk.injEq, and_true] at h
+    subst h
+    simpa [kindsOf, attributeAux] using r
+  | l :: rest, s, s', a, ps, r, h => by
+    simp only [readLines] at h
+    split at h
+    · simp at h
+    · split at h
+      · rename_i s1 hs1
+        obtain ⟨k, hk⟩ := rstep_ok_kind m e _ s1 l hs1
+        have r1 := rel_step m e _ s1 l a ps k hk hs1 (by simpa [RState.core] using r)
+        have ih := readLines_rel m e rest s1 s' (astep a k).1 (ps ++ [(astep a k).2]) r1 h
+        simp only [kindsOf, List.filterMap_cons, hk, attributeAux, List.length_cons] at ih ⊢
+        constructor
+        · simpa [List.append_assoc] using ih.1
+        · simpa [kindsOf] using ih.2
+      · simp at h
+
+/-- C04 on the model reader: a read that ends without error holds, below the file level, exactly the
+records of the input, each under the cash letter / bundle / item it followed - none dropped, none
+overwritten, none moved - and the input was in hierarchy.  (The file header and file control records
+are held in one slot each; a repeated file header is the recorded finding `duplicate-file-header`.) -/
+theorem C04_no_loss (m : Model) (e : Enc) (lines : List Bytes) (s' : RState)
+    (h : readLines m e lines (initState m) = (s', none)) (hend : s'.cur.header.isSome = false) :
+    (kindsOf lines).length = lines.length ∧
+    (attributeAux {} (kindsOf lines)).2.ok = true ∧
+    (attributeAux {} (kindsOf lines)).2.inCL = false ∧ (attributeAux {} (kindsOf lines)).2.inB = false ∧
+    ∀ p, inner p.kind = true → (filePlaces s'.file).count p = (attributeAux {} (kindsOf lines)).1.count p := by
+  have r0 : Rel (initState m).core {} [] := rel_init _ rfl
+  obtain ⟨r, hlen⟩ := readLines_rel m e lines (initState m) s' {} [] r0 h
+  have he := r.curEmpty (by simpa [RState.core] using hend)
+  refine ⟨hlen, r.ok, ?_, ?_, ?_⟩
+  · rw [r.inCL]; simpa [RState.core] using hend
+  · rw [r.inB]; exact he.2.2.2.2
+  · intro p hp
+    have hc := r.count p hp
+    simp only [List.nil_append] at hc
+    rw [← hc]
+    have hcl : s'.cur.header.isSome = false := hend
+    have hop := closed_bundle_places s'.core _ _ r he.2.2.2.2 (s'.cashLetters.length + 1) (s'.cur.bundles.length + 1)
+    simp only [corePlaces, filePlaces, RState.file, cashLetterPlaces, List.append_nil]
+    simp only [RState.core] at hop ⊢
+    rw [hop]
+    have h1 : s'.cur.bundles = [] := he.1
+    have h2 : s'.cur.credits = [] := he.2.1
+    have h3 : s'.cur.creditItems = [] := he.2.2.1
+    have h4 : s'.cur.rns = [] := he.2.2.2.1
+    simp [h1, h2, h3, h4, hcl, bundlesPlaces]
+
+theorem readTail_ok (m : Model) (e : Enc) (ls : List Bytes) (clean : Bool) (f : File Vals)
+    (h : (match readLines m e ls (initState m) with
+      | (s, er) =>
+        match er with
+        | some x => (s.file, some x)
+        | none =>
+          if !clean then
+            (s.file, some { wrapped := true, line := s.lineNum, record := s.recordName, cls := ErrClass.file, field := "LineNumber" })
+          else if s.headerUntouched then
+            (s.file, some { wrapped := true, line := s.lineNum, record := "FileHeader", cls := .file, field := "" })
+          else if (s.control.s "recordType").isEmpty then
+            (s.file, some { wrapped := true, line := s.lineNum, record := "FileControl", cls := .file, field := "" })
+          else if s.cur.header.isSome then
+            (s.file, some { wrapped := true, line := s.lineNum, record := "CashLetterControl", cls := .file, field := "" })
+          else (s.file, (none : Option RErr))) = (f, none)) :
+    ∃ s, readLines m e ls (initState m) = (s, none) ∧ s.cur.header.isSome = false ∧ f = s.file := by
+  generalize hrl : readLines m e ls (initState m) = res at h
+  obtain ⟨s, er⟩ := res
+  cases er with
+  | some x => simp at h
+  | none =>
+    simp only at h
+    split at h
+    · simp at h
+    · split at h
+      · simp at h
+      · split at h
+        · simp at h
+        · split at h
+          · simp at h
+          · rename_i hcur
+            simp only [Prod.mk.injEq, and_true] at h
+            exact ⟨s, rfl, by simpa using hcur, h.symm⟩
+
+/-- the same for `Reader.Read` as a whole (both framings): a returned file without error holds the
+input's records under the parents they followed -/
+theorem C04_read (m : Model) (e : Enc) (input : Bytes) (f : File Vals) (h : readFile m e input = (f, none)) :
+    ∃ lines, lines = (if e.lp then (splitLP input).1 else splitNL input) ∧
+    (attributeAux {} (kindsOf lines)).2.ok = true ∧
+    ∀ p, inner p.kind = true → (filePlaces f).count p = (attributeAux {} (kindsOf lines)).1.count p := by
+  unfold readFile at h
+  cases hlp : e.lp with
+  | false =>
+    simp only [hlp, Bool.false_eq_true, if_false] at h ⊢
+    obtain ⟨s, hrl, hend, hf⟩ := readTail_ok m e (splitNL input) true f h
+    subst hf
+    have := C04_no_loss m e _ s hrl hend
+    exact ⟨_, rfl, this.2.1, this.2.2.2.2⟩
+  | true =>
+    simp only [hlp, if_true] at h ⊢
+    generalize splitLP input = sp at h
+    obtain ⟨ls, clean⟩ := sp
+    obtain ⟨s, hrl, hend, hf⟩ := readTail_ok m e ls clean f h
+    subst hf
+    have := C04_no_loss m e _ s hrl hend
+    exact ⟨_, rfl, this.2.1, this.2.2.2.2⟩
 
 /-- non-vacuity: a well-nested sequence is accepted by the automaton and a broken one is not -/
 example : (attributeAll [.fileHeader, .cashLetterHeader, .bundleHeader, .checkDetail, .cdAddA, .bundleControl,
